@@ -424,6 +424,10 @@ func (sel *Selection) endEdit(r NodeRequest, bubble bool) error {
 }
 
 func (sel *Selection) Delete() (err error) {
+	if sel.parent == nil {
+		// nothing holds the root and could let go of it, what the root holds goes
+		return sel.deleteContent()
+	}
 
 	// allow children to recieve indication their parent is being deleted by
 	// sending node request w/delete=true
@@ -465,6 +469,38 @@ func (sel *Selection) Delete() (err error) {
 		}
 	}
 	return
+}
+
+func (sel *Selection) deleteContent() error {
+	if sel.Constraints != nil {
+		// what is stored goes, whether a when lets it be seen right now or not
+		unguarded := *sel
+		unguarded.Constraints = NewConstraints(sel.Constraints)
+		unguarded.Constraints.removeConstraint("~when")
+		sel = &unguarded
+	}
+	i := newContainerMetaList(sel)
+	for m := i.nextMeta(); m != nil; m = i.nextMeta() {
+		if i.err != nil {
+			return i.err
+		}
+		if meta.IsLeaf(m) {
+			if err := sel.ClearField(m.(meta.Leafable)); err != nil {
+				return err
+			}
+			continue
+		}
+		sub, err := sel.Find(m.(meta.Identifiable).Ident())
+		if err != nil {
+			return err
+		}
+		if sub != nil {
+			if err := sub.Delete(); err != nil {
+				return err
+			}
+		}
+	}
+	return i.err
 }
 
 func findIntParam(params map[string][]string, param string) (int, bool) {
@@ -527,6 +563,10 @@ func (sel *Selection) ReplaceFrom(fromNode Node) error {
 	parent := sel.parent
 	if err := sel.Delete(); err != nil {
 		return err
+	}
+	if parent == nil {
+		// the root is still there, what it held is gone
+		return sel.InsertFrom(fromNode)
 	}
 	return parent.InsertFrom(fromNode)
 }
